@@ -17,6 +17,12 @@ func (f *File) Read(p []byte) (int, error) {
 	if len(p) == 0 {
 		return 0, nil
 	}
+	if !w.Exited && (f.alias != nil || f == Stdout || f == Stderr) {
+		// the standard output is a pipe or a terminal: reading from it waits for
+		// bytes that nobody will send
+		w.Blocked = "read from " + f.name
+		panic(BlockedForever{w.Blocked})
+	}
 	faulty := f.role == roleIn && !w.Exited
 	if faulty && w.F.InReadErrAt >= 0 && f.rpos >= w.F.InReadErrAt {
 		w.Fired.InReadErr = true
@@ -64,6 +70,9 @@ func (f *File) Write(p []byte) (int, error) {
 	}
 	if f.closed {
 		return 0, &fs.PathError{Op: "write", Path: f.name, Err: fs.ErrClosed}
+	}
+	if f.alias != nil {
+		return f.alias.Write(p)
 	}
 	limit := -1
 	var e syscall.Errno
@@ -129,6 +138,37 @@ func (f *File) Close() error {
 		}
 	}
 	return nil
+}
+
+// Seek mirrors (*os.File).Seek: regular files have one offset for reading and
+// writing; streams cannot seek.
+func (f *File) Seek(offset int64, whence int) (int64, error) {
+	if f.closed {
+		return 0, &fs.PathError{Op: "seek", Path: f.name, Err: fs.ErrClosed}
+	}
+	if f.alias != nil || f == Stdin || f == Stdout || f == Stderr || f.isDir {
+		return 0, &fs.PathError{Op: "seek", Path: f.name, Err: syscall.ESPIPE}
+	}
+	cur := int64(f.wpos)
+	if f.role == roleIn {
+		cur = int64(f.rpos)
+	}
+	var abs int64
+	switch whence {
+	case io.SeekStart:
+		abs = offset
+	case io.SeekCurrent:
+		abs = cur + offset
+	case io.SeekEnd:
+		abs = int64(len(f.data)) + offset
+	default:
+		return 0, &fs.PathError{Op: "seek", Path: f.name, Err: syscall.EINVAL}
+	}
+	if abs < 0 {
+		return 0, &fs.PathError{Op: "seek", Path: f.name, Err: syscall.EINVAL}
+	}
+	f.rpos, f.wpos = int(abs), int(abs)
+	return abs, nil
 }
 
 // Sync mirrors (*os.File).Sync.
